@@ -51,6 +51,9 @@ type c14Case struct {
 	// (which renegotiates the capabilities).
 	Prelude string `json:"prelude,omitempty"`
 	Reset   bool   `json:"reset,omitempty"`
+	// Frag > 0: the server's replies reach the client in segments of at most
+	// Frag octets (a network may deliver a reply octet by octet)
+	Frag int `json:"frag,omitempty"`
 }
 
 func printable(s string) bool {
@@ -81,7 +84,7 @@ func textDomain(s string) bool {
 
 func c14Run(c c14Case) Verdict {
 	cfg := harness.Config{UTF8: c.ServerUTF8, DSN: true, RRVS: true, RequireTLS: true, AllowInsecureAuth: true,
-		MaxRecipients: c.RcptMax, MaxMessageBytes: c.SizeLimit, BinaryMIME: c.BinaryMIME, LMTP: c.LMTP}
+		MaxRecipients: c.RcptMax, MaxMessageBytes: c.SizeLimit, BinaryMIME: c.BinaryMIME, LMTP: c.LMTP, FragmentReplies: c.Frag}
 	if c.TLS {
 		cfg.TLS = "implicit"
 	}
@@ -535,6 +538,7 @@ func c14GenText(t *rapid.T, label string, ascii bool) string {
 
 func c14Gen(t *rapid.T) c14Case {
 	c := c14Case{ServerUTF8: rapid.Bool().Draw(t, "server_utf8"), TLS: rapid.IntRange(0, 3).Draw(t, "tls") == 0}
+	c.Frag = rapid.SampledFrom([]int{0, 0, 0, 1, 6}).Draw(t, "frag")
 	c.From = rapid.SampledFrom([]string{"sender@example.org", "a@b", "first.last@x.y", "u+tag@d", ""}).Draw(t, "from")
 	c.To = rapid.SampledFrom([]string{"rcpt@example.org", "c@d", "r.s@t.u"}).Draw(t, "to")
 	c.HasMailOpts = rapid.IntRange(0, 9).Draw(t, "mo") != 0
